@@ -215,7 +215,10 @@ def _sens(case, f, sim, want_v, want_g, what, rtol_v=1e-9, rtol_g=1e-7):
     case.true(not np.ma.is_masked(g), '%s: sensitivities contain masked entries' % what, kind='masked')
     g = np.asarray(g, dtype=float)
     case.equal(g.shape, sim.shape, '%s: sensitivities shape' % what, kind='shape')
-    case.close(g, want_g, rtol=rtol_g, what='%s: sensitivities' % what)
+    # entries that are cancelling sums of terms ~|g|_inf carry rounding noise of that scale (found by
+    # the thorough tier: KDE kernels 400 bandwidths away from the data, |g|_inf ~ 1e5, one entry ~ 0)
+    gmax = float(np.max(np.abs(want_g))) if np.size(want_g) else 0.0
+    case.close(g, want_g, rtol=rtol_g, atol=1e-11 * gmax, what='%s: sensitivities' % what)
 
 
 def _same_as_base(case, f, sim, v0, g0, what):
